@@ -35,6 +35,7 @@ where
         .stack_size(16 << 20)
         .spawn(move || {
             let _g = verif_rt::enter_shuttle();
+            crate::core::world::clear_first_panic();
             verif_rt::trace_reset();
             let mut cfg = shuttle::Config::new();
             cfg.stack_size = stack_mb << 20;
@@ -53,7 +54,15 @@ where
             let rep = match res {
                 Ok(n) => ShuttleReport { failure: None, executions: n, trace_hash: th, sched_points: sp1 - sp0 },
                 Err(p) => ShuttleReport {
-                    failure: Some(crate::core::world::panic_msg(&*p)),
+                    // the first panic of the execution is the cause; later ones are fallout of the unwinding
+                    failure: Some({
+                        let first = crate::core::world::first_panic();
+                        if first.is_empty() {
+                            crate::core::world::panic_msg(&*p)
+                        } else {
+                            first
+                        }
+                    }),
                     executions: 0,
                     trace_hash: th,
                     sched_points: sp1 - sp0,
